@@ -666,7 +666,7 @@ fn do_open(c: &mut Ctx, bytes: &[u8], truth: Option<&Spec>, r: &mut Rng, kind: &
         c.o.check(same, "-", &id, || format!("{}: datafile::Reader::open differs from raw::Reader::new: file-based {} / in-memory {}", kind, &ftext[..ftext.len().min(200)], &text[..text.len().min(200)]));
     }
     if let Some(mres) = map_res {
-        report_map(c, bytes, mres, &z, kind, false);
+        report_map(c, bytes, mres, &z, kind, true);
     }
 }
 
@@ -884,6 +884,163 @@ fn gen_datas(r: &mut Rng, max_n: u64, max_len: u64) -> Vec<Vec<u8>> {
     }).collect()
 }
 
+
+// ------------------------------------------------------------------ map-shaped files
+
+fn nul_str(r: &mut Rng, max: u64) -> Vec<u8> {
+    let n = r.below(max + 1) as usize;
+    let mut v: Vec<u8> = (0..n).map(|_| b'a' + r.below(26) as u8).collect();
+    if r.chance(1, 12) && !v.is_empty() { let k = r.below(v.len() as u64) as usize; v[k] = *r.pick(&[0u8, b'/', b'\\']); }
+    if !r.chance(1, 12) { v.push(0); }
+    v
+}
+
+fn name_words(r: &mut Rng) -> [i32; 3] {
+    if r.chance(1, 3) { [r.next() as i32, r.next() as i32, r.next() as i32] }
+    else { [0x80808080u32 as i32 + (r.below(26) as i32) * 0x01000000, 0x80808080u32 as i32, 0x80808080u32 as i32] }
+}
+
+/// an index field: valid for `count` (or -1 if optional); when `hostile`, sometimes
+/// -1 / count / count+1 / MIN / MAX / -2
+fn idx(r: &mut Rng, count: usize, optional: bool, hostile: bool) -> i32 {
+    if hostile {
+        match r.below(12) {
+            0 => return -1,
+            1 => return count as i32,
+            2 => return count as i32 + 1,
+            3 => return *r.pick(&[i32::MIN, i32::MAX, -2, 0x10000]),
+            _ => {}
+        }
+    }
+    if count == 0 || (optional && r.chance(1, 4)) { if optional { -1 } else { 0 } } else { r.below(count as u64) as i32 }
+}
+
+/// A datafile that looks like a Teeworlds / DDNet map (doc/map.md). `hostile` = 0: valid;
+/// 1: valid with one word of one item replaced by a boundary value (or one item truncated);
+/// 2: the boundary values of every index / count / version / flag field mixed in everywhere.
+fn gen_map(r: &mut Rng, hostile: u32) -> (Vec<Item>, Vec<Vec<u8>>) {
+    let hz = hostile >= 2;
+    let bad = |r: &mut Rng, den: u64| hz && r.chance(1, den);
+    let mut datas: Vec<Vec<u8>> = vec![];
+    let dims: Vec<(i32, i32)> = (0..3).map(|_| (1 + r.below(4) as i32, 1 + r.below(4) as i32)).collect();
+    // data 0..2: tile arrays for the three sizes, then strings and blobs
+    for k in 0..3 {
+        let (w, h) = dims[k];
+        let sz = if hz { *r.pick(&[4usize, 4, 2, 6]) } else { 4 };
+        datas.push(r.bytes((w * h) as usize * sz));
+    }
+    for _ in 0..r.below(5) {
+        datas.push(match r.below(4) {
+            0 | 1 => if hz { nul_str(r, 12) } else { let mut v: Vec<u8> = (0..r.below(9)).map(|_| b'a' + r.below(26) as u8).collect(); v.push(0); v },
+            2 => { let mut v = vec![]; for _ in 0..r.below(4) { let mut x: Vec<u8> = (0..r.below(6)).map(|_| b'a' + r.below(26) as u8).collect(); x.push(0); v.extend(x); } if v.is_empty() { v.push(0); } v }
+            _ => { let n = r.below(30) as usize; r.bytes(n) }
+        });
+    }
+    if hz && r.chance(1, 3) { let k = r.below(datas.len() as u64) as usize; datas[k] = vec![]; }
+    let nd = datas.len();
+    let n_images = r.below(3) as usize;
+    let n_envs = r.below(3) as usize;
+    let n_groups = 1 + r.below(3) as usize;
+    let n_sounds = r.below(3) as usize;
+    let game_group = r.below(n_groups as u64) as usize;
+    let mut layers: Vec<Vec<i32>> = vec![];
+    let mut groups: Vec<Vec<i32>> = vec![];
+    for gi in 0..n_groups {
+        let nl = r.below(4) as usize + if gi == game_group { 1 } else { 0 };
+        let start = layers.len();
+        let mut specials: Vec<i32> = if gi == game_group { let mut v = vec![1]; for f in [2, 4, 8, 16, 32] { if r.chance(1, 3) { v.push(f); } } v } else { vec![] };
+        for li in 0..nl {
+            let lflags = if bad(r, 10) { *r.pick(&[2, 3, -1]) } else { r.below(2) as i32 };
+            let mut l = vec![r.below(3) as i32, 0, lflags];
+            let kind = if li < specials.len() || specials.len() > nl { 0 } else { r.below(8) };
+            match kind {
+                0 | 1 | 2 | 3 | 4 => {
+                    l[1] = 2;
+                    let ver = if bad(r, 8) { *r.pick(&[1, 4, 0]) } else { *r.pick(&[2, 3, 3]) };
+                    let special = if gi == game_group && !specials.is_empty() { Some(specials.remove(0)) } else { None };
+                    let (w, h) = if special.is_some() && !bad(r, 10) { dims[0] } else { dims[r.below(3) as usize] };
+                    let tflags = match special { Some(f) => f, None => if bad(r, 6) { *r.pick(&[1, 2, 4, 8, 16, 32, 3, 64, -1]) } else { 0 } };
+                    let col = |r: &mut Rng| if hz && r.chance(1, 15) { *r.pick(&[-1, 256, 1000, i32::MIN]) } else { r.below(256) as i32 };
+                    let di = if w == dims[0].0 && h == dims[0].1 { 0 } else if w == dims[1].0 && h == dims[1].1 { 1 } else { 2 };
+                    l.extend([ver, if bad(r, 15) { *r.pick(&[0, -1, i32::MAX]) } else { w }, if bad(r, 15) { *r.pick(&[0, -1, i32::MAX]) } else { h }, tflags,
+                              col(r), col(r), col(r), col(r), idx(r, n_envs, true, hz), r.below(100) as i32, idx(r, n_images, true, hz),
+                              if hz { idx(r, nd, false, true) } else { di }]);
+                    if ver >= 3 || bad(r, 4) { l.extend(name_words(r)); }
+                    let extra = if special.map(|f| f > 1).unwrap_or(false) && !bad(r, 6) { 5 } else if hz { r.below(7) as usize } else { 0 };
+                    for _ in 0..extra { l.push(if hz { idx(r, nd, false, true) } else { di }); }
+                }
+                5 => {
+                    l[1] = 3;
+                    let ver = if bad(r, 8) { *r.pick(&[0, 3]) } else { *r.pick(&[1, 2, 2]) };
+                    l.extend([ver, if bad(r, 10) { -1 } else { r.below(9) as i32 }, idx(r, nd, false, hz), idx(r, n_images, true, hz)]);
+                    if ver >= 2 || bad(r, 4) { l.extend(name_words(r)); }
+                }
+                6 => {
+                    l[1] = *r.pick(&[10, 9]);
+                    let ver = if bad(r, 8) { *r.pick(&[0, 3]) } else { *r.pick(&[1, 2, 2]) };
+                    l.extend([ver, if bad(r, 10) { -5 } else { r.below(9) as i32 }, idx(r, nd, false, hz), idx(r, n_sounds, true, hz)]);
+                    l.extend(name_words(r));
+                }
+                _ => {
+                    if hz { l[1] = *r.pick(&[0, 1, 4, 11, -1, i32::MAX]); l.extend([1, 2, 3]); }
+                    else { l[1] = 3; l.extend([2, 0, idx(r, nd, false, false), -1]); l.extend(name_words(r)); }
+                }
+            }
+            if bad(r, 12) { let k = r.below(l.len() as u64 + 1) as usize; l.truncate(k); }
+            layers.push(l);
+        }
+        let ver = if bad(r, 8) { *r.pick(&[0, 4]) } else { *r.pick(&[1, 2, 3, 3, 3]) };
+        let mut g = vec![ver, r.range(-50, 50) as i32, r.range(-50, 50) as i32, 100, 100,
+                         if bad(r, 8) { idx(r, layers.len(), false, true) } else { start as i32 },
+                         if bad(r, 8) { idx(r, nl + 1, false, true) } else { nl as i32 }];
+        if ver >= 2 || bad(r, 4) { g.extend([r.below(2) as i32, 1, 2, 30, 40]); }
+        if ver >= 3 || bad(r, 4) { g.extend(name_words(r)); }
+        if bad(r, 12) { let k = r.below(g.len() as u64 + 1) as usize; g.truncate(k); }
+        groups.push(g);
+    }
+    let mut its: Vec<(u16, u16, Vec<i32>)> = vec![];
+    if hz { match r.below(10) { 0 => {} 1 => its.push((0, 0, vec![])), 2 => its.push((0, 0, vec![*r.pick(&[0, 2, -1, i32::MAX])])), 3 => its.push((0, 1, vec![1])), _ => its.push((0, 0, vec![1])) } }
+    else { its.push((0, 0, vec![1])); }
+    let info_kind = if hz { r.below(8) } else { 4 + r.below(2) };
+    match info_kind {
+        0 => {}
+        1 => its.push((1, 0, vec![1, idx(r, nd, true, hz)])),
+        2 => its.push((1, 0, vec![*r.pick(&[0, 2, -3]), -1, -1, -1, -1])),
+        4 => its.push((1, 0, vec![1, idx(r, nd, true, hz), idx(r, nd, true, hz), idx(r, nd, true, hz), idx(r, nd, true, hz)])),
+        _ => its.push((1, 0, vec![1, idx(r, nd, true, hz), idx(r, nd, true, hz), idx(r, nd, true, hz), idx(r, nd, true, hz), idx(r, nd, true, hz)])),
+    }
+    for k in 0..n_images {
+        let ver = if bad(r, 6) { *r.pick(&[0, 3]) } else { *r.pick(&[1, 1, 2]) };
+        let ext = if bad(r, 6) { *r.pick(&[2, -1]) } else { r.below(2) as i32 };
+        let mut im = vec![ver, if bad(r, 10) { -1 } else { r.below(64) as i32 }, if bad(r, 10) { i32::MIN } else { r.below(64) as i32 },
+                          ext, idx(r, nd, false, hz), if ext != 0 && !hz { -1 } else { idx(r, nd, false, hz) }];
+        if ver >= 2 { im.push(r.below(2) as i32); }
+        if bad(r, 12) { let n = r.below(im.len() as u64 + 1) as usize; im.truncate(n); }
+        its.push((2, k as u16, im));
+    }
+    for k in 0..n_envs { let mut e = vec![*r.pick(&[1, 2, 3]), 4, 0, 0]; e.extend([0i32; 8]); e.push(1); its.push((3, k as u16, e)); }
+    for (k, g) in groups.iter().enumerate() { its.push((4, k as u16, g.clone())); }
+    for (k, l) in layers.iter().enumerate() { its.push((5, k as u16, l.clone())); }
+    if n_envs > 0 { its.push((6, 0, vec![0; 6])); }
+    for k in 0..n_sounds { its.push((7, k as u16, vec![1, 0, idx(r, nd, false, hz), idx(r, nd, false, hz), 10])); }
+    if r.chance(1, 6) { its.push((0xffff, 7, vec![1, 2, 3])); }
+    if hostile == 1 {
+        // one field of one item at a boundary, or one item cut short
+        let k = r.below(its.len() as u64) as usize;
+        let n = its[k].2.len();
+        if n > 0 {
+            if r.chance(1, 5) { let m = r.below(n as u64) as usize; its[k].2.truncate(m); }
+            else {
+                let p = r.below(n as u64) as usize;
+                let o = its[k].2[p];
+                its[k].2[p] = *r.pick(&[0, 1, -1, 2, 3, 4, o + 1, o - 1, nd as i32, nd as i32 + 1, layers.len() as i32, layers.len() as i32 + 1, 255, 256, i32::MIN, i32::MAX, 9, 10, 16, 32, 64]);
+            }
+        }
+    }
+    let items = its.into_iter().map(|(t, id, ws)| Item { type_id: t, id, payload: item_words(&ws) }).collect();
+    (items, datas)
+}
+
 fn spec_items_txt(s: &Spec) -> String {
     if s.items.is_empty() { return "-".into(); }
     s.items.iter().map(|i| format!("{}/{}:{}", i.type_id, i.id, hex(&i.payload))).collect::<Vec<_>>().join(";")
@@ -1060,6 +1217,15 @@ datafile::Reader::open (temp file) and every map accessor. distinct = (generator
         }
         let (b, _) = write_file(&s);
         do_open(&mut c, &b, None, &mut r, kind);
+    }
+
+    // ---- map-shaped files: every index / count / version field of every item kind at its boundaries
+    for k in 0..(if th { 20_000 } else { 2500 }) {
+        let (items, datas) = gen_map(&mut r, (k % 4).min(2) as u32);
+        let version = if k % 3 == 0 { 3 } else { 4 };
+        let s = mk_spec(version, false, items, datas, &mut r);
+        let (b, _) = write_file(&s);
+        do_open(&mut c, &b, Some(&s), &mut r, "map");
     }
 
     // ---- random bytes behind a plausible prefix, and plain random bytes
